@@ -62,8 +62,28 @@ def cases(ctx):
                    "layout": rng.choice(LAYOUTS), "scale": scale, "wstrided": rng.random() < 0.25}
         else:
             sh = [rng.choice([5, 8, 13]) for _ in range(rng.choice([1, 2, 2, 3]))]
-            yield {"kind": "gauss", "shape": sh, "seed": rng.randrange(1 << 30), "sigma": rng.choice([0.5, 1.0, 1.5, 2.0]),
+            # k/2 + 0.125: 4*sigma + 0.5 is an integer there, so the half-width int(4*sigma + 0.5) differs from round-half-even
+            yield {"kind": "gauss", "shape": sh, "seed": rng.randrange(1 << 30),
+                   "sigma": rng.choice([0.5, 1.0, 1.5, 2.0, 0.625, 1.125, 1.625, 2.125, 0.875, 1.3]),
                    "order": rng.choice([0, 0, 1, 2, 3]), "mode": mode, "axis": rng.randrange(-len(sh), len(sh)),
+                   "layout": rng.choice(LAYOUTS)}
+    # products that are exact in double but not in the image's own type: int32 products beyond 2**31 whose sum is small again,
+    # float32 values with 13 significant bits (26-bit products).  "Accumulated in double, then cast" fixes the result exactly.
+    for i in range(60 if ctx.tier == "quick" else 600):
+        shape = rng.choice([[rng.randint(3, 9)], [rng.randint(2, 5), rng.randint(2, 6)]])
+        N = gen.size(shape)
+        wshape = [rng.choice([2, 3]) for _ in shape]
+        wn = gen.size(wshape)
+        if i % 2 == 0:
+            a = rng.randint(25000, 40000)
+            w = [0] * wn
+            j, k = rng.sample(range(wn), 2)
+            w[j], w[k] = a, -a + rng.randint(-3, 3)
+            yield {"kind": "conv", "dtype": "int32", "shape": shape, "f": [rng.randint(90000, 120000) for _ in range(N)],
+                   "wshape": wshape, "w": w, "mode": rng.choice(MODES), "layout": rng.choice(LAYOUTS), "scale": 1}
+        else:
+            yield {"kind": "conv32", "shape": shape, "f": [rng.randint(4097, 8191) for _ in range(N)], "wshape": wshape,
+                   "w": [rng.choice([0, 1, -1]) * rng.randint(4097, 8191) for _ in range(wn)], "mode": rng.choice(MODES),
                    "layout": rng.choice(LAYOUTS)}
     for dt in ("float64", "float32"):
         yield {"kind": "ramp", "dtype": dt, "sigma": 2.0}
@@ -146,6 +166,22 @@ def run_case(ctx, case):
                 return Result(False, True, {"why": "row_fast model != row spec", "row_fast": rf, "spec": spec})
         nz = sum(1 for v in case["w"] if v)
         return Result(True, nz >= 2 and len(set(case["f"])) > 1, None, cls)
+    if kind == "conv32":
+        fi = np.array(case["f"], dtype=np.int64).reshape(case["shape"])
+        wi = np.array(case["w"], dtype=np.int64).reshape(case["wshape"])
+        f0 = (fi / 4096.0).astype(np.float32)
+        assert (f0.astype(np.float64) * 4096 == fi).all()
+        f = apply_layout(f0, case["layout"], fill=1)
+        got = mh.convolve(f, (wi / 4096.0).astype(np.float32), mode=case["mode"])
+        spec = ctx.model.ints("conv_spec %d %s %s" % (M2I[case["mode"]], enc_arr(fi), enc_arr(wi)))[0]
+        want = np.array([s / 16777216.0 for s in spec], dtype=np.float64).astype(np.float32).reshape(case["shape"])
+        if got.dtype != np.float32 or got.shape != f0.shape:
+            return Result(False, True, {"why": "shape/dtype", "got": [str(got.dtype), list(got.shape)]})
+        if not np.array_equal(got, want):
+            return Result(False, True, {"why": "float32 convolve != defining sum accumulated in double and cast once",
+                                        "got": [float(v).hex() for v in got.reshape(-1)],
+                                        "want": [float(v).hex() for v in want.reshape(-1)]})
+        return Result(True, True, None, "convolve/float32-exact/%s/%dD" % (case["mode"], f0.ndim))
     if kind == "gauss":
         rs = np.random.RandomState(case["seed"])
         a0 = rs.randint(-20, 20, size=case["shape"]).astype(np.float64)
